@@ -1,6 +1,6 @@
 """Texts of MANIFEST.json (level claimed / trusted base per property)."""
 TECHNIQUE = 'Rocq (Coq 8.16) theorems on a hand-written executable model + differential correspondence of the extracted model with the Go code'
-HOOK_COMMITS = []
+HOOK_COMMITS = ['836edf2']
 NOTES = ('Every check: (1) audits and builds the Coq development and re-checks Props/<ID>.v with Print Assumptions; '
          '(2) rebuilds the Go driver from /repo\'s working tree and compares the real code with the extracted model on generated cases. '
          'A mismatch on an observable the property constrains is reported as VIOLATION with the shrunk case as replay; '
